@@ -2048,6 +2048,34 @@ fn check_model(c: &mut Case, m: &M2Model, vi: usize, risk: Risk, ctx: Value) {
                 Ok(Err(e)) => c.violate(sigtag(format!("parse-rejects-own-output|{vlabel}")), format!("parse_m2 rejected the writer's own output: {e}"), ctx.clone()),
                 Err(pn) => c.violate(sigtag(format!("parse-panic|{vlabel}|{}", pn.sig())), format!("parse_m2 panicked: {}", pn.msg), ctx.clone()),
             }
+            // the same bytes through a source that returns short reads (a pipe, an archive-backed stream): same content; and
+            // the same model into a sink that accepts short writes: same bytes
+            if c.idx % 3 == 0 || b1.len() < 4000 {
+                let max = 1 + (c.idx % 9) as usize * 7;
+                match trap(|| M2Model::parse(&mut vh_common::ShortIo::new(Cursor::new(b1.clone()), max)).map_err(|e| format!("{e}"))) {
+                    Ok(Ok(ps)) => {
+                        c.count("short_read_parses", 1);
+                        if project(&ps, Ctx::full(v)) != pp {
+                            c.violate(sigtag(format!("short-read-parse-differs|{vlabel}")), format!("M2Model::parse through a reader that returns at most {max} bytes per call yields other content than through a Cursor"), ctx.clone());
+                        }
+                    }
+                    Ok(Err(e)) => c.violate(sigtag(format!("short-read-parse-rejects|{vlabel}")), format!("M2Model::parse through a reader that returns at most {max} bytes per call fails: {e}"), ctx.clone()),
+                    Err(pn) => c.violate(sigtag(format!("parse-panic|{vlabel}|{}", pn.sig())), format!("M2Model::parse (short reads) panicked: {}", pn.msg), ctx.clone()),
+                }
+                match trap(|| {
+                    let mut w = vh_common::ShortIo::new(Cursor::new(Vec::new()), max);
+                    m.write(&mut w).map(|_| w.inner.into_inner()).map_err(|e| format!("{e}"))
+                }) {
+                    Ok(Ok(bs)) => {
+                        c.count("short_write_writes", 1);
+                        if bs != b1 {
+                            c.violate(sigtag(format!("short-write-differs|{vlabel}")), format!("M2Model::write into a sink that accepts at most {max} bytes per call produced other bytes (first difference at {})", first_diff(&bs, &b1)), ctx.clone());
+                        }
+                    }
+                    Ok(Err(e)) => c.violate(sigtag(format!("short-write-rejected|{vlabel}")), format!("M2Model::write into a sink that accepts short writes fails: {e}"), ctx.clone()),
+                    Err(pn) => c.violate(sigtag(format!("write-panic|{vlabel}|{}", pn.sig())), format!("M2Model::write (short writes) panicked: {}", pn.msg), ctx.clone()),
+                }
+            }
             // (b) second write
             match write_model(&p) {
                 W::Bytes(b2) => {
@@ -2263,6 +2291,40 @@ fn main() {
         run.case(i, &class, json!({"kind": "m2", "version": ALLV[vi].0, "header_version": ALLV[vi].2, "risk": risk.tag(), "share": share.tag(), "pattern": pat_s, "sections": SECT_NAMES}), |c| {
             model_case(c, &mut rng, rs, share, vi, risk, &pattern, thorough);
         });
+    }
+    // skeletons around the limit of the byte-sized vertex bone index: the highest addressable bones are ordinary bones
+    for &nbones in &[255usize, 256, 257, 300] {
+        for vi in 0..VERSIONS.len() {
+            let i = idx;
+            idx += 1;
+            if !run.want(i) {
+                continue;
+            }
+            let (vl, mv, v) = VERSIONS[vi];
+            let class = format!("m2-large-skeleton|{vl}|bones{nbones}");
+            run.case(i, &class, json!({"kind": "m2-large-skeleton", "version": vl, "bones": nbones}), |c| {
+                let mut m = M2Model::default();
+                m.header = M2Header::new(mv);
+                for k in 0..nbones {
+                    let Ok(mut b) = M2Bone::parse(&mut zeros(), v) else { return };
+                    reset_track(&mut b.translation);
+                    reset_track(&mut b.rotation);
+                    reset_track(&mut b.scale);
+                    b.bone_id = k as i32;
+                    b.parent_bone = if k == 0 { -1 } else { (k - 1) as i16 };
+                    m.bones.push(b);
+                }
+                let top = (nbones - 1).min(255) as u8;
+                for quad in [[top, top - 1, 0, 0], [0, top, top - 1, top - 2], [top - 1, 0, 0, top], [254, 253, top, 1]] {
+                    let Ok(mut x) = M2Vertex::parse(&mut zeros(), v) else { return };
+                    x.bone_indices = quad;
+                    x.bone_weights = [100, 80, 50, 25];
+                    x.tex_coords2 = Some(C2Vector { x: 0.0, y: 0.0 });
+                    m.vertices.push(x);
+                }
+                check_model(c, &m, vi, Risk::Clean, json!({"version": vl, "bones": nbones, "vertex_bone_indices_up_to": top}));
+            });
+        }
     }
     run.done();
 }
